@@ -57,7 +57,7 @@ func c18Oracle(t, stored []byte, header string) string {
 
 func runC18(ctx *Ctx) error {
 	r, res := ctx.Rng, ctx.Res
-	res.Rule = "cases: Latin-1 texts (mixed LF/CRLF/lone CR/no final newline, empty lines, line lengths 0..300000, non-ASCII characters incl. at byte offsets 994..1002 of a line) passed as UTF-8 to Message.SetBody / StringToBody; stored body and Body header vs model set_body; oracle: the property's statement on the stored bytes; and the result does not depend on what the message held before (a body set earlier; a body parsed from the wire that is not in normal form and is set again as the text Body() returns). Non-trivial: text with a line > 998 bytes or a non-ASCII character; distinct by text."
+	res.Rule = "cases: Latin-1 texts (mixed LF/CRLF/lone CR/no final newline, empty lines, line lengths 0..300000, non-ASCII characters incl. at byte offsets 994..1002 of a line) passed as UTF-8 to Message.SetBody / StringToBody; stored body and Body header vs model set_body; oracle: the property's statement on the stored bytes, on BodySize(), on the serialised message (the stored body follows the header block, the Body header is its length) and on the message read back from those bytes; and the result does not depend on what the message held before (a body set earlier; a body parsed from the wire that is not in normal form and is set again as the text Body() returns). Non-trivial: text with a line > 998 bytes or a non-ASCII character; distinct by text."
 	var texts [][]byte
 	alpha := []byte("abcdefghijklmnopqrstuvwxyz ABC0123456789.,\xe6\xf8\xe5\xc5\xfc\xdf\xff\x80\xa0\t")
 	line := func(n int) []byte {
@@ -132,6 +132,23 @@ func runC18(ctx *Ctx) error {
 		back, _ := m.Body()
 		if back != latin1ToUTF8(stored) {
 			res.Fail(Failure{Kind: "oracle", Site: "SetBody-differs-from-StringToBody", Case: hexs(t)})
+		}
+		// the other two observation points of the property: BodySize() and the serialised bytes
+		if m.BodySize() != len(stored) {
+			res.Fail(Failure{Kind: "oracle", Site: "SetBody-BodySize", Case: map[string]interface{}{"text_hex": shortHex(t), "index": i}, Impl: fmt.Sprintf("BodySize() = %d, stored %d bytes, header %s", m.BodySize(), len(stored), header)})
+		}
+		if wire, err := m.Bytes(); err != nil {
+			res.Fail(Failure{Kind: "oracle", Site: "SetBody-serialise", Case: map[string]interface{}{"text_hex": shortHex(t), "index": i}, Detail: err.Error()})
+		} else if k := bytes.Index(wire, []byte("\r\n\r\n")); k < 0 || !bytes.Equal(wire[k+4:], stored) || !bytes.Contains(wire[:k+2], []byte(fmt.Sprintf("\r\nBody: %d\r\n", len(stored)))) {
+			res.Fail(Failure{Kind: "oracle", Site: "SetBody-serialise", Case: map[string]interface{}{"text_hex": shortHex(t), "index": i}, Impl: "the serialised message does not carry the stored body after its header block, or not its length in the Body header"})
+		} else if i%3 == 0 || len(stored) > 30000 {
+			m4 := new(fbb.Message)
+			if err := m4.ReadFrom(bytes.NewReader(wire)); err != nil {
+				res.Fail(Failure{Kind: "oracle", Site: "SetBody-read-back", Case: map[string]interface{}{"text_hex": shortHex(t), "index": i}, Detail: err.Error()})
+			} else if b4, _ := m4.Body(); b4 != back || m4.BodySize() != len(stored) {
+				res.Fail(Failure{Kind: "oracle", Site: "SetBody-read-back", Case: map[string]interface{}{"text_hex": shortHex(t), "index": i}, Impl: fmt.Sprintf("the serialised message read back holds a body of %d bytes (BodySize %d), stored %d", len(b4), m4.BodySize(), len(stored))})
+			}
+			res.Count("read-back")
 		}
 		nontriv := bytes.IndexFunc(t, func(c rune) bool { return c >= 0x80 }) >= 0
 		for _, l := range bytes.Split(t, []byte("\n")) {
